@@ -52,5 +52,7 @@ static inline void queue_drop_call(fn_t tok, struct packet p)
    (int64_t)(held) + (int64_t)(p).bufsz + (p).overhead > (int64_t)(self)->m_max_queue_size)
 /* serialisation time: (int64)(1e9 / (double)bandwidth * (double)bytes), over uninterpreted fp operations */
 #define SPEC_TX(bw, bytes) F2I(FMUL(FDIV(1000000000.0, I2F(bw)), I2F(bytes)))
+/* used only by the cross-examination of a refuted [C09.tx] (vf/native/c09_tx.py) */
+#define FP_CANON_SLICE(self) do { (self)->m_last_forward += SPEC_TX((self)->m_bandwidth, PKT_SIZE(deq_tp_front(&(self)->m_queue)->pkt)); } while (0)
 static inline bool packet_ok_to_drop(struct packet *p) { return packet_ok_to_drop_spec(p->type); }
 #endif
